@@ -93,6 +93,30 @@ var c03SelfTests = []SelfTest{
 	{Name: "exit derives after the dial and tests only the dial error", ExpectRule: "C03.R3", ExpectKey: "handleStreamOpenAsync", Edits: []Edit{
 		{File: "internal/exit/handler.go", Old: "\tsharedSecret, err := crypto.ComputeECDH(ephPriv, remoteEphemeralPub)\n\tif err != nil {\n\t\tcrypto.ZeroKey(&ephPriv)\n\t\th.sendOpenErr(remoteID, streamID, requestID, protocol.ErrGeneralFailure, \"key exchange failed\")\n\t\treturn\n\t}\n", New: "\tsharedSecret, err := crypto.ComputeECDH(ephPriv, remoteEphemeralPub)\n\tif err != nil {\n\t\th.logger.Debug(\"key exchange failed\")\n\t}\n"},
 	}},
+	{Name: "rewrite: result test through a pointer helper with the branches swapped (refactoring C03/a)", Edits: []Edit{
+		{File: "internal/crypto/crypto.go", Old: "\tif sharedSecret == zeroKey {\n\t\treturn sharedSecret, fmt.Errorf(\"invalid ECDH result: low-order point\")\n\t}\n\n\treturn sharedSecret, nil\n}\n", New: "\tif !isAllZeroKey(&sharedSecret) {\n\t\treturn sharedSecret, nil\n\t}\n\treturn sharedSecret, fmt.Errorf(\"invalid ECDH result: low-order point\")\n}\n\nfunc isAllZeroKey(k *[KeySize]byte) bool {\n\treturn *k == [KeySize]byte{}\n}\n"},
+	}},
+	{Name: "rewrite: result test through a scan-loop helper over a slice", Edits: []Edit{
+		{File: "internal/crypto/crypto.go", Old: "\tif sharedSecret == zeroKey {\n", New: "\tif !anyNonZeroByte(sharedSecret[:]) {\n"},
+		{File: "internal/crypto/crypto.go", Old: "// DeriveSessionKey derives a symmetric encryption key from an ECDH shared secret.\n", New: "func anyNonZeroByte(b []byte) bool {\n\tfor _, x := range b {\n\t\tif x != 0 {\n\t\t\treturn true\n\t\t}\n\t}\n\treturn false\n}\n\n// DeriveSessionKey derives a symmetric encryption key from an ECDH shared secret.\n"},
+	}},
+	{Name: "rewrite: DeriveSessionKey split into salt and expand helpers, salt built with append (refactoring C03/a)", Edits: []Edit{
+		{File: "internal/crypto/crypto.go", Old: "\tsalt := make([]byte, 8+KeySize+KeySize)\n\tbinary.BigEndian.PutUint64(salt[0:8], streamID)\n\tcopy(salt[8:8+KeySize], initiatorPub[:])\n\tcopy(salt[8+KeySize:], responderPub[:])\n", New: "\tsalt := tunnelSalt(streamID, &initiatorPub, &responderPub)\n"},
+		{File: "internal/crypto/crypto.go", Old: "\treader := hkdf.New(sha256.New, sharedSecret[:], salt, []byte(hkdfInfo))\n", New: "\treader := tunnelKDF(sharedSecret[:], salt)\n"},
+		{File: "internal/crypto/crypto.go", Old: "// DeriveSessionKey derives a symmetric encryption key from an ECDH shared secret.\n", New: "func tunnelSalt(id uint64, a, b *[KeySize]byte) []byte {\n\ts := make([]byte, 0, 8+2*KeySize)\n\ts = binary.BigEndian.AppendUint64(s, id)\n\ts = append(s, a[:]...)\n\treturn append(s, b[:]...)\n}\n\nfunc tunnelKDF(secret, salt []byte) io.Reader {\n\treturn hkdf.New(sha256.New, secret, salt, []byte(hkdfInfo))\n}\n\n// DeriveSessionKey derives a symmetric encryption key from an ECDH shared secret.\n"},
+	}},
+	{Name: "split DeriveSessionKey whose salt helper forgets the responder key", ExpectRule: "C03.R7", ExpectKey: "responderPub", Edits: []Edit{
+		{File: "internal/crypto/crypto.go", Old: "\tsalt := make([]byte, 8+KeySize+KeySize)\n\tbinary.BigEndian.PutUint64(salt[0:8], streamID)\n\tcopy(salt[8:8+KeySize], initiatorPub[:])\n\tcopy(salt[8+KeySize:], responderPub[:])\n", New: "\tsalt := tunnelSalt(streamID, &initiatorPub, &responderPub)\n"},
+		{File: "internal/crypto/crypto.go", Old: "// DeriveSessionKey derives a symmetric encryption key from an ECDH shared secret.\n", New: "func tunnelSalt(id uint64, a, b *[KeySize]byte) []byte {\n\ts := make([]byte, 0, 8+2*KeySize)\n\ts = binary.BigEndian.AppendUint64(s, id)\n\ts = append(s, a[:]...)\n\t_ = b\n\treturn append(s, a[:]...)\n}\n\n// DeriveSessionKey derives a symmetric encryption key from an ECDH shared secret.\n"},
+	}},
+	{Name: "zero-test helper with inverted meaning used as if it meant all-zero", ExpectRule: "C03.R6", ExpectKey: "low-order", Edits: []Edit{
+		{File: "internal/crypto/crypto.go", Old: "\tif sharedSecret == zeroKey {\n", New: "\tif anyNonZeroByte(sharedSecret[:]) {\n"},
+		{File: "internal/crypto/crypto.go", Old: "// DeriveSessionKey derives a symmetric encryption key from an ECDH shared secret.\n", New: "func anyNonZeroByte(b []byte) bool {\n\tfor _, x := range b {\n\t\tif x != 0 {\n\t\t\treturn true\n\t\t}\n\t}\n\treturn false\n}\n\n// DeriveSessionKey derives a symmetric encryption key from an ECDH shared secret.\n"},
+	}},
+	{Name: "rewrite: relayed UDP_OPEN built by a helper", Edits: []Edit{
+		{File: "internal/agent/udp.go", Old: "\tfwdOpen := &protocol.UDPOpen{\n\t\tRequestID:       open.RequestID,\n\t\tAddressType:     open.AddressType,\n\t\tAddress:         open.Address,\n\t\tPort:            open.Port,\n\t\tTTL:             open.TTL,\n\t\tRemainingPath:   newPath,\n\t\tEphemeralPubKey: open.EphemeralPubKey,\n\t}\n", New: "\tfwdOpen := forwardedUDPOpen(open, newPath)\n"},
+		{File: "internal/agent/udp.go", Old: "// handleUDPOpenAck processes a UDP_OPEN_ACK frame.\n", New: "func forwardedUDPOpen(in *protocol.UDPOpen, rest []identity.AgentID) *protocol.UDPOpen {\n\treturn &protocol.UDPOpen{\n\t\tRequestID:       in.RequestID,\n\t\tAddressType:     in.AddressType,\n\t\tAddress:         in.Address,\n\t\tPort:            in.Port,\n\t\tTTL:             in.TTL,\n\t\tRemainingPath:   rest,\n\t\tEphemeralPubKey: in.EphemeralPubKey,\n\t}\n}\n\n// handleUDPOpenAck processes a UDP_OPEN_ACK frame.\n"},
+	}},
 	{Name: "rewrite: derivation hoisted into a local helper closure (exit)", Edits: []Edit{
 		{File: "internal/exit/handler.go", Old: "sessionKey := crypto.DeriveSessionKey(sharedSecret, requestID, remoteEphemeralPub, ephPub, false)", New: "sessionKey := func(id uint64, remote, local [crypto.KeySize]byte) *crypto.SessionKey {\n\t\treturn crypto.DeriveSessionKey(sharedSecret, id, remote, local, false)\n\t}(requestID, remoteEphemeralPub, ephPub)"},
 	}},
@@ -1308,6 +1332,11 @@ func c03ZeroTest(cond ssa.Value) (root ssa.Value, trueMeansZero bool, ok bool) {
 		if prm := kit.SpilledParam(v); prm != nil {
 			return prm
 		}
+		if u, isU := v.(*ssa.UnOp); isU && u.Op == token.MUL {
+			if prm, isP := u.X.(*ssa.Parameter); isP {
+				return prm // *k for a pointer parameter k
+			}
+		}
 		rg, ok := kit.AddrRange(v)
 		if !ok {
 			return nil
@@ -1351,6 +1380,29 @@ func c03ZeroTest(cond ssa.Value) (root ssa.Value, trueMeansZero bool, ok bool) {
 		}
 	case *ssa.Call:
 		cal := kit.CalleeOf(x)
+		if g := cal.Static; g != nil && g.Blocks != nil && kit.IsRepoPkg(kit.FuncPkgPath(g)) {
+			// a repository predicate such as isAllZero(&k): summarise it by what its result implies
+			pi, tmz, ok := c03ZeroHelper(g, 0)
+			if !ok || pi >= len(x.Call.Args) {
+				return nil, false, false
+			}
+			arg := x.Call.Args[pi]
+			var root ssa.Value
+			if _, isPtr := g.Params[pi].Type().Underlying().(*types.Pointer); isPtr {
+				root = arg
+				if a, isA := arg.(*ssa.Alloc); isA {
+					if prm := kit.AllocOfParam(a); prm != nil {
+						root = prm
+					}
+				}
+			} else {
+				root = rootOf(arg)
+			}
+			if root == nil {
+				return nil, false, false
+			}
+			return root, tmz != neg, true
+		}
 		if cal.Name == "Equal" && cal.Pkg == "bytes" && len(x.Call.Args) == 2 {
 			a, b := x.Call.Args[0], x.Call.Args[1]
 			switch {
@@ -1362,6 +1414,133 @@ func c03ZeroTest(cond ssa.Value) (root ssa.Value, trueMeansZero bool, ok bool) {
 		}
 	}
 	return nil, false, false
+}
+
+// c03ZeroHelper summarises a repository predicate over one buffer parameter: it returns the
+// index of that parameter and whether a true result means "all bytes are zero". Accepted bodies:
+// a returned zero test of the parameter (array ==, bytes.Equal, ConstantTimeCompare, another such
+// helper), or a scan loop that returns a constant as soon as one element differs from zero.
+func c03ZeroHelper(g *ssa.Function, depth int) (paramIdx int, trueMeansZero bool, ok bool) {
+	if depth > 2 || g.Signature.Results().Len() != 1 {
+		return 0, false, false
+	}
+	if b, isB := g.Signature.Results().At(0).Type().Underlying().(*types.Basic); !isB || b.Kind() != types.Bool {
+		return 0, false, false
+	}
+	var rets []*ssa.Return
+	for _, ret := range kit.Returns(g) {
+		if g.Recover != nil && ret.Block() == g.Recover {
+			continue
+		}
+		rets = append(rets, ret)
+	}
+	if len(rets) == 0 {
+		return 0, false, false
+	}
+	allConst := true
+	for _, ret := range rets {
+		if _, isC := kit.ConstBool(kit.ReturnResult(ret, 0)); !isC {
+			allConst = false
+		}
+	}
+	if !allConst {
+		// every return is itself a zero test of the same parameter with the same meaning
+		var prm *ssa.Parameter
+		for i, ret := range rets {
+			root, tmz, ok := c03ZeroTest(kit.ReturnResult(ret, 0))
+			q, isP := root.(*ssa.Parameter)
+			if !ok || !isP || q.Parent() != g {
+				return 0, false, false
+			}
+			if i == 0 {
+				prm, trueMeansZero = q, tmz
+			} else if q != prm || tmz != trueMeansZero {
+				return 0, false, false
+			}
+		}
+		return kit.ParamIndex(prm), trueMeansZero, true
+	}
+	// scan loop: the "found a non-zero element" exits all return one constant, the fall-through the other
+	var prm *ssa.Parameter
+	nonZeroExit := func(ret *ssa.Return) bool {
+		for _, gd := range kit.GuardsOf(ret) {
+			b, isB := gd.Cond.(*ssa.BinOp)
+			if !isB || (b.Op != token.EQL && b.Op != token.NEQ) {
+				continue
+			}
+			elem, other := b.X, b.Y
+			if k, isK := kit.ConstInt(elem); isK && k == 0 {
+				elem, other = other, elem
+			}
+			if k, isK := kit.ConstInt(other); !isK || k != 0 {
+				continue
+			}
+			if (b.Op == token.NEQ) != gd.Polarity {
+				continue // this path is the "element is zero" side
+			}
+			q := c03ElemOfParam(elem)
+			if q == nil || q.Parent() != g {
+				continue
+			}
+			if prm == nil || prm == q {
+				prm = q
+				return true
+			}
+		}
+		return false
+	}
+	var onNonZero, onFallthrough []bool
+	for _, ret := range rets {
+		v, _ := kit.ConstBool(kit.ReturnResult(ret, 0))
+		if nonZeroExit(ret) {
+			onNonZero = append(onNonZero, v)
+		} else {
+			onFallthrough = append(onFallthrough, v)
+		}
+	}
+	if prm == nil || len(onNonZero) == 0 || len(onFallthrough) == 0 {
+		return 0, false, false
+	}
+	for _, v := range onNonZero {
+		if v != onNonZero[0] {
+			return 0, false, false
+		}
+	}
+	for _, v := range onFallthrough {
+		if v == onNonZero[0] {
+			return 0, false, false
+		}
+	}
+	return kit.ParamIndex(prm), !onNonZero[0], true
+}
+
+// c03ElemOfParam: v is one element (byte) of a buffer parameter: k[i], (*k)[i], or the value of a range over it.
+func c03ElemOfParam(v ssa.Value) *ssa.Parameter {
+	for i := 0; i < 6; i++ {
+		switch x := v.(type) {
+		case *ssa.UnOp:
+			if x.Op != token.MUL {
+				return nil
+			}
+			if prm := kit.SpilledParam(x); prm != nil {
+				return prm
+			}
+			v = x.X
+		case *ssa.IndexAddr:
+			v = x.X
+		case *ssa.Index:
+			v = x.X
+		case *ssa.Slice:
+			v = x.X
+		case *ssa.Alloc:
+			return kit.AllocOfParam(x)
+		case *ssa.Parameter:
+			return x
+		default:
+			return nil
+		}
+	}
+	return nil
 }
 
 // c03EscapesToWriter: like c03EscapesTo but ignores callees that only read (bytes.Equal,
@@ -1485,26 +1664,230 @@ func (cx *c03Ctx) checkECDH() {
 		"a nil-error return is reachable with an all-zero shared secret: a low-order remote key (e.g. the point of order 8) yields a secret every observer knows")
 }
 
+// c03Scope: DeriveSessionKey and the repository functions it reaches through static calls.
+func (cx *c03Ctx) deriveScope() map[*ssa.Function]bool {
+	scope := map[*ssa.Function]bool{cx.derive: true}
+	work := []*ssa.Function{cx.derive}
+	for len(work) > 0 {
+		f := work[len(work)-1]
+		work = work[:len(work)-1]
+		for _, fc := range kit.WithClosures(f) {
+			for _, c := range kit.Calls(fc) {
+				g := kit.CalleeOf(c).Static
+				if g == nil || g.Blocks == nil || scope[g] || !kit.IsRepoPkg(kit.FuncPkgPath(g)) || len(scope) > 40 {
+					continue
+				}
+				scope[g] = true
+				work = append(work, g)
+			}
+		}
+	}
+	return scope
+}
+
+// c03Deps is a backward data-dependence closure inside a set of functions: operands of every
+// instruction, the writers of local buffers (stores, copy, callees that receive the buffer),
+// the arguments bound to a helper's parameters at its call sites in scope, and the returned
+// values of helpers in scope.
+type c03Deps struct {
+	cx    *c03Ctx
+	scope map[*ssa.Function]bool
+	seen  map[ssa.Value]bool
+}
+
+func (d *c03Deps) walk(v ssa.Value) {
+	if v == nil || d.seen[v] || len(d.seen) > 20000 {
+		return
+	}
+	d.seen[v] = true
+	switch x := v.(type) {
+	case *ssa.Parameter:
+		fn := x.Parent()
+		if fn == d.cx.derive || !d.scope[fn] {
+			return
+		}
+		pi := kit.ParamIndex(x)
+		for _, site := range d.cx.p.StaticCallers(fn) {
+			if d.scope[kit.TopLevel(site.Parent())] || d.scope[site.Parent()] {
+				d.walk(kit.ArgAt(site, pi))
+			}
+		}
+		return
+	case *ssa.FreeVar:
+		d.walk(c03FreeVarBinding(x))
+		return
+	case *ssa.Alloc:
+		d.writers(x)
+		return
+	case *ssa.MakeSlice:
+		d.writers(x)
+	case *ssa.Call:
+		if g := kit.CalleeOf(x).Static; g != nil && d.scope[g] {
+			// a helper in scope: its result depends on what it returns; its parameters are
+			// resolved through the call sites when (and only when) the returned values use them
+			for _, ret := range kit.Returns(g) {
+				for _, rv := range ret.Results {
+					d.walk(rv)
+				}
+			}
+			return
+		}
+	case *ssa.Const, *ssa.Global, *ssa.Function, *ssa.Builtin:
+		return
+	}
+	if in, ok := v.(ssa.Instruction); ok {
+		for _, op := range in.Operands(nil) {
+			if *op != nil {
+				d.walk(*op)
+			}
+		}
+	}
+}
+
+// writers walks everything written into the buffer root (through derived slices/element addresses).
+func (d *c03Deps) writers(root ssa.Value) {
+	seen := map[ssa.Value]bool{}
+	var rec func(a ssa.Value)
+	rec = func(a ssa.Value) {
+		if seen[a] || a.Referrers() == nil {
+			return
+		}
+		seen[a] = true
+		for _, r := range *a.Referrers() {
+			switch x := r.(type) {
+			case *ssa.Store:
+				if x.Addr == a {
+					d.walk(x.Val)
+				}
+			case *ssa.Slice:
+				if x.X == a {
+					rec(x)
+				}
+			case *ssa.IndexAddr:
+				if x.X == a {
+					rec(x)
+				}
+			case *ssa.FieldAddr:
+				if x.X == a {
+					rec(x)
+				}
+			case ssa.CallInstruction:
+				cal := kit.CalleeOf(x)
+				args := x.Common().Args
+				if cal.Built == "copy" {
+					if len(args) == 2 && args[0] == a {
+						d.walk(args[1])
+					}
+					continue
+				}
+				if cal.Built == "len" || cal.Built == "cap" {
+					continue
+				}
+				isArg := false
+				for _, arg := range args {
+					if arg == a {
+						isArg = true
+					}
+				}
+				if !isArg {
+					continue
+				}
+				// the callee may write through the address: its other inputs flow into the buffer
+				if g := cal.Static; g != nil && d.scope[g] {
+					for i, arg := range args {
+						if arg == a && !kit.WritesThroughParam(g, i) {
+							isArg = false
+						}
+					}
+					if !isArg {
+						continue
+					}
+				}
+				for _, arg := range args {
+					if arg != a {
+						d.walk(arg)
+					}
+				}
+				if x.Common().IsInvoke() {
+					d.walk(x.Common().Value)
+				}
+			}
+		}
+	}
+	rec(root)
+}
+
+func (cx *c03Ctx) depsOf(scope map[*ssa.Function]bool, vals ...ssa.Value) map[ssa.Value]bool {
+	d := &c03Deps{cx: cx, scope: scope, seen: map[ssa.Value]bool{}}
+	for _, v := range vals {
+		d.walk(v)
+	}
+	return d.seen
+}
+
+// c03ToDeriveParam follows v through conversions and helper parameters (all call sites in scope must
+// agree) to a parameter of DeriveSessionKey. narrowed reports a truncating conversion on the way.
+func (cx *c03Ctx) toDeriveParam(v ssa.Value, scope map[*ssa.Function]bool, depth int) (prm *ssa.Parameter, narrowed bool) {
+	for i := 0; i < 8; i++ {
+		if sp := kit.SpilledParam(v); sp != nil {
+			v = sp
+		}
+		switch x := v.(type) {
+		case *ssa.Convert:
+			if from, to := c03IntBits(x.X.Type()), c03IntBits(x.Type()); from > 0 && to > 0 && to < from {
+				narrowed = true
+			}
+			v = x.X
+			continue
+		case *ssa.ChangeType:
+			v = x.X
+			continue
+		case *ssa.Parameter:
+			if x.Parent() == cx.derive {
+				return x, narrowed
+			}
+			if depth > 3 || !scope[x.Parent()] {
+				return nil, narrowed
+			}
+			var res *ssa.Parameter
+			for _, site := range cx.p.StaticCallers(x.Parent()) {
+				q, n := cx.toDeriveParam(kit.ArgAt(site, kit.ParamIndex(x)), scope, depth+1)
+				if q == nil || (res != nil && q != res) {
+					return nil, narrowed
+				}
+				res, narrowed = q, narrowed || n
+			}
+			return res, narrowed
+		}
+		return nil, narrowed
+	}
+	return nil, narrowed
+}
+
 func (cx *c03Ctx) checkDerive() {
 	r, p := cx.r, cx.p
 	fn := cx.derive
 	key := kit.FuncName(fn)
+	scope := cx.deriveScope()
 	var hk *ssa.Call
-	for _, c := range kit.Calls(fn) {
-		if cal := kit.CalleeOf(c); cal.Pkg == "golang.org/x/crypto/hkdf" && cal.Name == "New" {
-			hk, _ = c.(*ssa.Call)
+	for f := range scope {
+		for _, fc := range kit.WithClosures(f) {
+			for _, c := range kit.Calls(fc) {
+				if cal := kit.CalleeOf(c); cal.Pkg == "golang.org/x/crypto/hkdf" && cal.Name == "New" {
+					if cv, ok := c.(*ssa.Call); ok && (hk == nil || cv.Pos() < hk.Pos()) {
+						hk = cv
+					}
+				}
+			}
 		}
 	}
-	if !r.Require(hk != nil && len(hk.Call.Args) == 4, "anchor-unresolved: DeriveSessionKey does not call hkdf.New") {
+	if !r.Require(hk != nil && len(hk.Call.Args) == 4, "anchor-unresolved: neither DeriveSessionKey nor a helper it calls uses hkdf.New") {
 		return
 	}
-	visited := func(v ssa.Value) map[ssa.Value]bool {
-		m := map[ssa.Value]bool{}
-		kit.Slice(v, kit.SliceOpts{Prog: p, Visit: func(x ssa.Value) { m[x] = true }})
-		return m
-	}
-	sec, salt := visited(hk.Call.Args[1]), visited(hk.Call.Args[2])
-	info := visited(hk.Call.Args[3])
+	r.Count("derive_helper_functions", len(scope)-1)
+	sec := cx.depsOf(scope, hk.Call.Args[1])
+	salt := cx.depsOf(scope, hk.Call.Args[2])
+	info := cx.depsOf(scope, hk.Call.Args[3])
 	names := []string{"sharedSecret", "request identifier", "initiatorPub", "responderPub"}
 	r.Decide(sec[fn.Params[0]], "C03.R7", key+" secret is the HKDF input key", p.Pos(hk.Pos()),
 		"the shared secret is the HKDF input keying material", "the shared secret does not reach hkdf.New as input keying material: the key does not depend on the key exchange")
@@ -1517,98 +1900,107 @@ func (cx *c03Ctx) checkDerive() {
 	role := fn.Params[4]
 	r.Decide(!sec[role] && !salt[role] && !info[role], "C03.R7", key+" role not in key", p.Pos(hk.Pos()),
 		"the role flag does not influence the key bytes", "the role flag flows into hkdf.New: initiator and responder derive different keys")
-	// salt layout: the writers of the salt buffer occupy pairwise disjoint constant ranges
-	saltRg, ok := kit.AddrRange(hk.Call.Args[2])
-	if !ok {
-		return
-	}
+
+	// the identifier enters the salt in full width; buffers assembled at constant offsets have disjoint fields
 	type wr struct {
 		lo, hi int64
 		what   string
 	}
-	var ws []wr
-	decidable := true
-	for _, c := range kit.Calls(fn) {
-		cal := kit.CalleeOf(c)
-		var dst, src ssa.Value
-		width := int64(-1)
-		switch {
-		case cal.Built == "copy":
-			dst, src = c.Common().Args[0], c.Common().Args[1]
-			if sr, ok := kit.AddrRange(src); ok {
-				if a, isA := sr.Root.(*ssa.Alloc); isA {
-					if arr, isArr := a.Type().Underlying().(*types.Pointer).Elem().Underlying().(*types.Array); isArr && sr.Hi < 0 {
-						width = arr.Len() - sr.Lo
+	byRoot := map[ssa.Value][]wr{}
+	undecidable := map[ssa.Value]bool{}
+	idChecked := false
+	for f := range scope {
+		for _, c := range kit.Calls(f) {
+			cal := kit.CalleeOf(c)
+			var dst, src ssa.Value
+			width := int64(-1)
+			switch {
+			case cal.Built == "copy":
+				dst, src = c.Common().Args[0], c.Common().Args[1]
+				if sr, ok := kit.AddrRange(src); ok {
+					if a, isA := sr.Root.(*ssa.Alloc); isA {
+						if arr, isArr := a.Type().Underlying().(*types.Pointer).Elem().Underlying().(*types.Array); isArr && sr.Hi < 0 {
+							width = arr.Len() - sr.Lo
+						}
+					}
+					if prm, isP := sr.Root.(*ssa.Parameter); isP && sr.Hi < 0 {
+						if pt, isPtr := prm.Type().Underlying().(*types.Pointer); isPtr {
+							if arr, isArr := pt.Elem().Underlying().(*types.Array); isArr {
+								width = arr.Len() - sr.Lo
+							}
+						}
+					}
+					if sr.Hi >= 0 {
+						width = sr.Hi - sr.Lo
 					}
 				}
-				if sr.Hi >= 0 {
-					width = sr.Hi - sr.Lo
+			case cal.Pkg == "encoding/binary" && (strings.HasPrefix(cal.Name, "PutUint") || strings.HasPrefix(cal.Name, "AppendUint")):
+				switch strings.TrimPrefix(strings.TrimPrefix(cal.Name, "Put"), "Append") {
+				case "Uint64":
+					width = 8
+				case "Uint32":
+					width = 4
+				case "Uint16":
+					width = 2
 				}
-			}
-		case cal.Pkg == "encoding/binary" && strings.HasPrefix(cal.Name, "PutUint"):
-			dst = kit.Arg(c, 0)
-			switch cal.Name {
-			case "PutUint64":
-				width = 8
-			case "PutUint32":
-				width = 4
-			case "PutUint16":
-				width = 2
-			}
-			// the request identifier must enter the salt in full width
-			val, narrowed := kit.Arg(c, 1), false
-			for {
-				cv, isCv := val.(*ssa.Convert)
-				if !isCv {
-					break
+				if prm, narrowed := cx.toDeriveParam(kit.Arg(c, 1), scope, 0); prm == fn.Params[1] && salt[kit.Arg(c, 1)] {
+					idChecked = true
+					full := !narrowed && width*8 >= int64(c03IntBits(fn.Params[1].Type()))
+					r.Decide(full, "C03.R7", key+" identifier in full width", p.Pos(c.Pos()),
+						"the request identifier is written into the salt without truncation",
+						"the request identifier is truncated before it enters the salt: tunnels whose identifiers differ only in the dropped bits derive the same key")
 				}
-				if from, to := c03IntBits(cv.X.Type()), c03IntBits(cv.Type()); from > 0 && to > 0 && to < from {
-					narrowed = true
+				if strings.HasPrefix(cal.Name, "Append") {
+					continue // appended fields follow each other: disjoint by construction
 				}
-				val = cv.X
-			}
-			if val == ssa.Value(fn.Params[1]) {
-				full := !narrowed && width*8 >= int64(c03IntBits(fn.Params[1].Type()))
-				r.Decide(full, "C03.R7", key+" identifier in full width", p.Pos(c.Pos()),
-					"the request identifier is written into the salt without truncation",
-					"the request identifier is truncated before it enters the salt: tunnels whose identifiers differ only in the dropped bits derive the same key")
-			}
-		default:
-			continue
-		}
-		dr, ok := kit.AddrRange(dst)
-		if !ok || dr.Root != saltRg.Root {
-			if ok {
+				dst = kit.Arg(c, 0)
+			default:
 				continue
 			}
-			decidable = false
+			dr, ok := kit.AddrRange(dst)
+			if !ok {
+				continue
+			}
+			if !salt[dr.Root] {
+				continue // not a buffer that reaches the salt
+			}
+			if width < 0 {
+				undecidable[dr.Root] = true
+				continue
+			}
+			hi := dr.Lo + width
+			if dr.Hi >= 0 && dr.Hi < hi {
+				hi = dr.Hi
+			}
+			byRoot[dr.Root] = append(byRoot[dr.Root], wr{dr.Lo, hi, cal.String()})
+		}
+	}
+	_ = idChecked
+	nLayout := 0
+	for root, ws := range byRoot {
+		if undecidable[root] {
 			continue
 		}
-		if width < 0 {
-			decidable = false
-			continue
-		}
-		hi := dr.Lo + width
-		if dr.Hi >= 0 && dr.Hi < hi {
-			hi = dr.Hi
-		}
-		ws = append(ws, wr{dr.Lo, hi, cal.String()})
-	}
-	if !decidable || len(ws) == 0 {
-		r.Infof("C03.R7", key+" salt layout", p.Pos(hk.Pos()), "salt is not assembled with constant offsets; layout disjointness not evaluated")
-		return
-	}
-	disjoint := true
-	for i := range ws {
-		for j := i + 1; j < len(ws); j++ {
-			if ws[i].lo < ws[j].hi && ws[j].lo < ws[i].hi {
-				disjoint = false
+		nLayout++
+		disjoint := true
+		for i := range ws {
+			for j := i + 1; j < len(ws); j++ {
+				if ws[i].lo < ws[j].hi && ws[j].lo < ws[i].hi {
+					disjoint = false
+				}
 			}
 		}
+		k := key + " salt fields disjoint"
+		if nLayout > 1 {
+			k = fmt.Sprintf("%s #%d", k, nLayout)
+		}
+		r.Decide(disjoint, "C03.R7", k, p.Pos(root.Pos()),
+			fmt.Sprintf("%d salt fields occupy pairwise disjoint byte ranges", len(ws)),
+			"two salt fields overlap: one overwrites the other, so tunnels differing only in the overwritten field derive the same key")
 	}
-	r.Decide(disjoint, "C03.R7", key+" salt fields disjoint", p.Pos(hk.Pos()),
-		fmt.Sprintf("%d salt fields occupy pairwise disjoint byte ranges", len(ws)),
-		"two salt fields overlap: one overwrites the other, so tunnels differing only in the overwritten field derive the same key")
+	if nLayout == 0 {
+		r.Infof("C03.R7", key+" salt layout", p.Pos(hk.Pos()), "the salt is not assembled at constant offsets (appended fields are disjoint by construction); layout not evaluated")
+	}
 }
 
 // ---------------------------------------------------------------------------------------
